@@ -259,7 +259,10 @@ impl Sys {
 fn lattice128() -> Vec<i128> {
     let mut v: Vec<i128> = vec![0, 1, 2, 3, 7, 10, 1 << 31, 1 << 32, 1 << 62, 1 << 63, 1 << 64, (1 << 64) + 1, 1 << 126,
                                 WAD, WAD - 1, WAD + 1, 10i128.pow(36), 10i128.pow(38), i128::MAX, i128::MAX - 1,
-                                i128::MAX / 2, i128::MAX / 3, 0x5555_5555_5555_5555_5555_5555_5555_5555];
+                                i128::MAX / 2, i128::MAX / 3, 0x5555_5555_5555_5555_5555_5555_5555_5555,
+                                // floor(sqrt(i128::MAX)) and its neighbours: where a product of two like factors starts to overflow
+                                13_043_817_825_332_782_211, 13_043_817_825_332_782_212, 13_043_817_825_332_782_213,
+                                13_043_817_825_332_782_214, 1 << 127 - 64, (1 << 63) - 1, (1 << 64) - 1, (1 << 126) - 1];
     let mut n: Vec<i128> = v.iter().map(|x| -*x).collect();
     v.append(&mut n);
     v.push(i128::MIN);
@@ -365,7 +368,11 @@ fn main() {
                                   (-big, big, -(1 << 73)), (-big, big, -(1 << 72)), (big, big, (1 << 73) - 1), (-big, big, (1 << 73) - 1),
                                   (i128::MAX, i128::MAX, i128::MAX), (i128::MIN, i128::MIN, i128::MIN), (i128::MIN, i128::MAX, i128::MIN),
                                   (i128::MAX, 2, 2), (i128::MIN, 2, 2), (i128::MIN, 3, -3), (i128::MAX, 3, 2), (i128::MIN, 3, 2), (i128::MIN, 3, -2),
-                                  (0, 5, 3), (0, 5, -3), (7, 1, 2), (-7, 1, 2), (7, 1, -2), (-7, 1, -2)] {
+                                  (0, 5, 3), (0, 5, -3), (7, 1, 2), (-7, 1, 2), (7, 1, -2), (-7, 1, -2),
+                                  // around floor(sqrt(i128::MAX)) = ...212: the smallest like factors whose product overflows
+                                  (13_043_817_825_332_782_213, 13_043_817_825_332_782_213, 2), (13_043_817_825_332_782_213, 13_043_817_825_332_782_212, 2),
+                                  (13_043_817_825_332_782_212, 13_043_817_825_332_782_212, 1), (-13_043_817_825_332_782_213, 13_043_817_825_332_782_213, 3),
+                                  (13_043_817_825_332_782_213, -13_043_817_825_332_782_213, -7), (13_043_817_825_332_782_213, 13_043_817_825_332_782_213, 1)] {
                     t.step(sys.step(&json!({"op": "i128", "mode": mode, "x": h(x), "y": h(y), "d": h(d)})));
                 }
             }
@@ -399,7 +406,12 @@ fn main() {
                     };
                     let op = match r.gen_range(0..20) {
                         0..=9 => {
-                            let (x, y, d) = (pick128(&mut r), pick128(&mut r), pick128(&mut r));
+                            let (x, mut y, d) = (pick128(&mut r), pick128(&mut r), pick128(&mut r));
+                            // one case in five: the product sits right at the edge of i128 (whatever the size of x)
+                            if x != 0 && x != -1 && r.gen_ratio(1, 5) {
+                                let edge = if r.gen_bool(0.5) { i128::MAX } else { i128::MIN };
+                                y = (edge / x).wrapping_add(r.gen_range(-1..=1));
+                            }
                             json!({"op": "i128", "mode": mode, "x": Big::from_i128(x).hex(), "y": Big::from_i128(y).hex(), "d": Big::from_i128(d).hex()})
                         }
                         10..=12 => {
